@@ -136,7 +136,7 @@ def _c_nb(r, p, y):
 # ------------------------------------------------------------------------------------
 # Motion family used by C01 / C03 / C04 (one place, so the lattices are comparable)
 # ------------------------------------------------------------------------------------
-ATTITUDES = ('tilt', 'yaw_osc', 'coning', 'spin')
+ATTITUDES = ('tilt', 'yaw_osc', 'coning', 'spin', 'inverted')
 
 
 def make_motion(lat_deg, lon_deg, alt, speed, course_deg, climb, attitude, weave, phase=0.0):
@@ -168,6 +168,11 @@ def make_motion(lat_deg, lon_deg, alt, speed, course_deg, climb, attitude, weave
     elif attitude == 'spin':
         # sustained 3 rad/s about a skew body axis
         r, p, y = Sines(0.5 + 0.1 * np.sin(phase)), Sines(0.3), Sines(crs + phase, 3.0)
+    elif attitude == 'inverted':
+        # inverted flight, rolling about 150 deg (|roll| > 90 deg is a legitimate attitude)
+        r = Sines(2.6, 0.0, [(0.25, 1.3, 0.2 + phase)])
+        p = Sines(0.2, 0.0, [(0.1, 0.9, 1.0 + phase)])
+        y = Sines(crs - 0.4, 0.02)
     else:
         raise ValueError(attitude)
     return Motion(lat, lon, h, r, p, y)
